@@ -241,6 +241,11 @@ def gen_chunks(run):
             for rot in (0, 3, 1):
               for src in ("list", "gen"):
                 yield (strat, dfmt, order, size, n, rot, src)
+            # the same samples in the other containers a signal comes in
+            for src in ("stream", "stream-copy", "iter", "tuple", "deque"):
+              yield (strat, dfmt, order, size, n, 0, src)
+            # silence: zeros of both signs only (float formats), and all-zero integer data
+            yield (strat, dfmt, order, size, n, "zeros", "list")
     # a big chunk: sizes beyond 127 must work for every format
     for dfmt in "bhifd":
       yield (strat, dfmt, None, 200, 3, 0, "list")
@@ -283,8 +288,23 @@ def run_chunks(case):
   return res
 
 
+def make_source(src, seq):
+  from collections import deque as _deque
+  if src == "list": return list(seq)
+  if src == "gen": return (v for v in seq)
+  if src == "stream": return Stream(list(seq))
+  if src == "stream-copy": return Stream(list(seq)).copy()
+  if src == "iter": return iter(list(seq))
+  if src == "tuple": return tuple(seq)
+  if src == "deque": return _deque(seq)
+  raise ValueError(src)
+
+
 def one_chunks_call(strat, dfmt, order, size, n, rot, src):
   vals = FMT_VALUES[dfmt]
+  if rot == "zeros":
+    vals = [0.0, -0.0, -0.0, 0.0] if dfmt in "fd" else [0, 0, 0, 0]
+    rot = 0
   seq = [vals[(i + rot) % len(vals)] for i in range(n)]
   pad = vals[(rot + 3) % len(vals)]
   if rot == 1:
@@ -300,7 +320,7 @@ def one_chunks_call(strat, dfmt, order, size, n, rot, src):
       del kw["padval"]                       # documented default 0. (for the integer formats: only where no padding is needed)
     if size is not None: kw["size"] = size
     if order is not None: kw["byte_order"] = order
-    data = list(seq) if src == "list" else (v for v in seq)
+    data = make_source(src, seq)
     out = list(chunks[strat](data, **kw))
   except Exception as exc:
     return bad("chunks:%s:exception:%s" % (strat, type(exc).__name__), "chunks raised",
@@ -321,12 +341,17 @@ def one_chunks_call(strat, dfmt, order, size, n, rot, src):
   exp_vals = seq + [pad] * (nchunks * eff - n)
   # expected numbers after a round trip through the same struct format
   exp = [struct.unpack(fmt, struct.pack(fmt, v))[0] for v in exp_vals]
+  exp_bytes = struct.pack((order or "") + "%d%s" % (len(exp_vals), dfmt), *exp_vals) if exp_vals else b""
+  if got == exp and flat != exp_bytes:
+    return bad("chunks:%s:bytes" % strat, "the concatenated chunks are not the packed bytes of the sequence followed by "
+               "pad values (byte order %r; equal as numbers, different as bytes: the sign of a zero)" % order,
+               exp_bytes[:32].hex(), flat[:32].hex(), True)
   if got != exp:
     return bad("chunks:%s:value" % strat, "unpacking the concatenated chunks does not give the sequence "
                "followed by pad values (byte order %r, asked after other byte orders in the same process)" % order,
                exp[:8], got[:8], needs_pad)
   if strat == "struct":
-    data = list(seq) if src == "list" else (v for v in seq)
+    data = make_source(src, seq)
     if size is None:
       type(chunks).size = 5
     try:
